@@ -38,6 +38,7 @@ def base_project():
                     {"name": "user_name", "type": "String", "public": True, "rename": None, "skip": False,
                      "validator": "length(min = 1, max = 20)"},
                     {"name": "email", "type": "Option<String>", "public": True, "rename": None, "skip": False, "validator": None},
+                    {"name": "created", "type": "DateTime<Utc>", "public": True, "rename": None, "skip": False, "validator": None},
                 ]},
                 {"name": "Status", "is_enum": True, "rename_all": None, "fields": [
                     {"name": "Active", "rename": None}, {"name": "Inactive", "rename": None}]},
@@ -135,6 +136,20 @@ def render_rs(f):
     return "\n".join(o)
 
 
+def render_tauri_conf(cfg, with_cases=True):
+    """tauri.conf.json with plugins.typegen (camelCase keys; interface/config.rs from_tauri_config)."""
+    t = {"projectPath": "./" + SRC, "outputPath": "./" + OUT, "validationLibrary": cfg["validation_library"],
+         "visualizeDeps": cfg["visualize_deps"], "includePrivate": cfg["include_private"]}
+    if with_cases:
+        t["defaultParameterCase"] = cfg["default_parameter_case"]
+        t["defaultFieldCase"] = cfg["default_field_case"]
+    if cfg.get("type_mappings") is not None:
+        t["typeMappings"] = cfg["type_mappings"]
+    if cfg.get("force") is not None:
+        t["force"] = cfg["force"]
+    return json.dumps({"productName": "demo", "plugins": {"typegen": t}}, indent=1)
+
+
 def render_cfg(cfg):
     d = {"project_path": "./" + SRC, "output_path": "./" + OUT,
          "validation_library": cfg["validation_library"],
@@ -197,13 +212,14 @@ def discovered_structs(desc):
     return seen
 
 
-def sx_project(desc):
-    """project = list of source files (path, commands, discovered structs, events); the discovery order is chosen
+def sx_project(desc, src=SRC):
+    """src: the project path as spelled to the tool (file_path = <project path>/<file>).
+    project = list of source files (path, commands, discovered structs, events); the discovery order is chosen
     by the schedule argument of the model, not here."""
     files = []
     disc = discovered_structs(desc)
     for f in desc["files"]:
-        p = SRC + "/" + f["path"]
+        p = src + "/" + f["path"]
         text = render_rs(f).split("\n")
         lines = {c["name"]: 1 + next(i for i, l in enumerate(text) if ("fn %s(" % c["name"]) in l) for c in f["commands"]}
         files.append([p, [sx_command(p, c, lines[c["name"]]) for c in f["commands"]],
@@ -228,9 +244,10 @@ def sx_cfg(cfg, map_order=None):
 class World:
     """One sandbox holding a project, its configuration and the output directory."""
 
-    def __init__(self, sandbox, entry):
+    def __init__(self, sandbox, entry, conf="cfile"):
         self.sb = sandbox
         self.entry = entry            # "cli" | "build"
+        self.conf = conf              # "cfile": typegen.json (CLI: -c typegen.json) | "tauri": tauri.conf.json plugins.typegen
         self.desc = None
 
     # -- inputs
@@ -241,8 +258,17 @@ class World:
         os.makedirs(src)
         for f in desc["files"]:
             self.sb.write(os.path.join(SRC, f["path"]), render_rs(f))
-        self.sb.write("typegen.json", render_cfg(desc["cfg"]))
+        self.write_cfg(desc["cfg"])
         self.desc = copy.deepcopy(desc)
+
+    def write_cfg(self, cfg):
+        for n in ("typegen.json", "tauri.conf.json"):
+            if os.path.exists(self.sb.path(n)):
+                os.remove(self.sb.path(n))
+        if self.conf == "tauri":
+            self.sb.write("tauri.conf.json", render_tauri_conf(cfg))
+        else:
+            self.sb.write("typegen.json", render_cfg(cfg))
 
     def out(self, *rel):
         return self.sb.path(OUT, *rel)
@@ -274,10 +300,13 @@ class World:
             return None
 
     # -- one run in a fresh process
-    def run(self, force=False, extra=()):
+    def run(self, force=False, extra=(), args=None):
+        """args: complete CLI argument list after `generate` (invocation spellings); default: the configuration file."""
         before = self.stat()
         if self.entry == "cli":
-            args = ["generate", "-c", "typegen.json"] + (["--force"] if force else []) + list(extra)
+            if args is None:
+                args = ["-c", "typegen.json"] if self.conf == "cfile" else []
+            args = ["generate"] + list(args) + (["--force"] if force else []) + list(extra)
             rc, text = self.sb.cli(args)
             failed = rc != 0
         else:
@@ -509,7 +538,20 @@ def e_mode(d):
 
 
 def e_type_mapping(d):
-    _toggle(d["cfg"], "type_mappings", None, {"u32": "bigint"})
+    _toggle(d["cfg"], "type_mappings", None, {"DateTime<Utc>": "string"})
+
+
+def e_map_target(d):
+    """change the TypeScript target of an existing mapping (or introduce the mapping with the other target)"""
+    tm = d["cfg"].get("type_mappings")
+    if not tm or "DateTime<Utc>" not in tm:
+        d["cfg"]["type_mappings"] = {"DateTime<Utc>": "Date"}
+    else:
+        tm["DateTime<Utc>"] = "Date" if tm["DateTime<Utc>"] == "string" else "string"
+
+
+def e_include_private(d):
+    d["cfg"]["include_private"] = not d["cfg"]["include_private"]
 
 
 def e_param_case(d):
@@ -537,7 +579,7 @@ EDITS = {
     "variant_rename": e_variant_rename, "validator": e_validator, "event_name": e_event_name,
     "event_payload": e_event_payload, "event_add": e_event_add, "channel": e_channel, "mode": e_mode,
     "type_mapping": e_type_mapping, "param_case": e_param_case, "field_case": e_field_case,
-    "visualize": e_visualize, "noise": e_noise,
+    "visualize": e_visualize, "noise": e_noise, "map_target": e_map_target, "include_private": e_include_private,
 }
 
 
